@@ -15,6 +15,13 @@ Ltac src_eq_tac :=
   first [ reflexivity
         | unfold wsub, wadd, wmul in *; cbv delta [W] in *; first [ reflexivity | timeout 60 lia ] ].
 
+(** whole functions (type N): bit operations are outside lia, so anything but a syntactic identity (after
+    unfolding the wrap-around operators) is left unproved and goes to the counterexample search *)
+Ltac src_eq_fun_tac :=
+  intros;
+  first [ reflexivity
+        | unfold wsub, wadd, wmul in *; cbv delta [W] in *; first [ reflexivity | timeout 60 lia ] ].
+
 (** all [n]-tuples over [grid], first one on which [f] is false *)
 Fixpoint find_cex (n : nat) (grid : list N) (f : list N -> bool) : option (list N) :=
   match n with
@@ -30,6 +37,7 @@ Fixpoint find_cex (n : nat) (grid : list N) (f : list N -> bool) : option (list 
   end.
 
 Definition cex_grid : list N :=
-  [0; 1; 2; 3; 4; 5; 7; 8; 9; 15; 16; 17; 64; 1000; 4294967295; 4294967296; 9223372036854775807; 9223372036854775808;
+  [0; 1; 2; 3; 4; 5; 7; 8; 9; 15; 16; 17; 64; 255; 257; 1000; 65535; 65537; 1048577; 16777217; 1073741825; 2147483647;
+   2147483648; 2147483649; 4294967295; 4294967296; 4294967297; 281474976710657; 9223372036854775807; 9223372036854775808;
    18446744073709551614; 18446744073709551615].
 Definition cex_grid_small : list N := [0; 1; 2; 3; 8; 9223372036854775808; 18446744073709551614; 18446744073709551615].
